@@ -23,6 +23,7 @@ RULE = (
     'voxels on a grid with blocked voxels; distinct = SHA-1 of (grid, request).'
 )
 RULE += ' Added in rounds 6-9: walls exactly at / one ulp around the threshold, inf and NaN; Fortran-ordered grids; two mutually disconnected percolating networks; peaks on blocked voxels or isolated pockets listed anywhere in the peak list.'
+RULE += ' Round 14: percolating channels lying exactly at energy 0.0 (path cost 0.0); a quarter of the random grids with integer-valued energies and exact zeros.'
 ASSUMPTIONS = [
     'costs compared at relative tolerance 1e-9',
     'K3 (4 corner moves missing) tolerated only if the cost equals the optimum over GEMDAT\'s 22-move set and exceeds the 26-move optimum',
@@ -125,7 +126,13 @@ def run_unit(unit, rng, ctx):
         sl_w = [slice(None)] * 3
         sl_w[o1] = slice(2, shape[o1] - 1)
         Fd0[tuple(sl_w)] = rng.uniform(0.4, 1.0, size=Fd0[tuple(sl_w)].shape)
-        if rng.integers(2):
+        zero_channel = unit['i'] % 21 == 3
+        if zero_channel:
+            # the narrow channel lies exactly at the energy minimum 0.0 (grids shifted so that min(F) = 0): its
+            # percolating path costs exactly 0.0
+            Fd0[tuple(sl_n)] = 0.0
+            ctx.count('grids_with_a_zero_energy_percolating_channel')
+        elif rng.integers(2):
             Fd0[tuple(sl_n)], Fd0[tuple(sl_w)] = Fd0[tuple(sl_n)] + 2.0, Fd0[tuple(sl_w)]  # the narrow channel is the expensive one
         pn = [0, 0, 0]
         pn[ax] = int(rng.integers(shape[ax]))
@@ -163,6 +170,10 @@ def run_unit(unit, rng, ctx):
         Fd0 = rng.uniform(0, rng.choice([0.5, 3.0, 12.0, 40.0]), size=shape)
         # blocked voxels: far above the threshold, EXACTLY at the threshold (1e7: not below it, so blocked), or
         # one ulp above it; a few admissible voxels sit one ulp below the threshold
+        if rng.uniform() < 0.25:
+            # integer-valued energies with exact zeros (ties between paths, zero-cost steps and zero-cost paths)
+            Fd0 = np.floor(Fd0 * rng.choice([1.0, 4.0]) / max(float(Fd0.max()), 1e-9) * 1.0)
+            ctx.count('integer_valued_energy_grids_with_exact_zeros')
         wall = float(rng.choice([1e300, 1e300, 1e7, float(np.nextafter(1e7, np.inf)), np.inf, np.nan]))
         Fd0 = np.where(rng.uniform(size=shape) < rng.choice([0.0, 0.2, 0.4]), wall, Fd0)
         if rng.uniform() < 0.25:
